@@ -58,6 +58,8 @@ func main() {
 	case "baseline":
 		// dev: regenerate the list of functions the rule tables were confirmed against
 		os.WriteFile("baseline_funcs.txt", []byte(writeBaseline(repoRoot())), 0o644)
+		os.WriteFile("baseline_decls.txt", []byte(writeBaselineDecls(repoRoot())), 0o644)
+		os.WriteFile("baseline_files.txt", []byte(writeBaselineFiles(repoRoot())), 0o644)
 	case "inline":
 		// dev: print the normalised form of the files the inliner rewrites
 		env := append(os.Environ(), "GOFLAGS=-mod=mod", "GOPROXY=off", "GOSUMDB=off", "GOTOOLCHAIN=local", "GOWORK=off")
